@@ -47,7 +47,7 @@ NoR == <<0, 0>>
 
 Init == /\ pc = [g \in G |-> "id"] /\ m = [g \in G |-> 1] /\ i = [g \in G |-> 1]
         /\ held = [g \in G |-> 0]
-        /\ holders = [b \in Bufs |-> {}] /\ pooled = {} /\ made = 0
+        /\ holders = {} /\ pooled = {} /\ made = 0
         /\ buf = [b \in Bufs |-> [data |-> <<>>, w |-> NoR]]
         /\ sink = [r \in Render |-> <<>>] /\ res = [r \in Render |-> "run"]
         /\ mutex = 0 /\ cache = [cached |-> FALSE, ver |-> 0] /\ file = 1 /\ inmap = {}
